@@ -317,6 +317,17 @@ func (db *DB) OpenTransaction() (*Transaction, error) {
 		if _, err := db.rotateMem(0, true); err != nil {
 			return nil, err
 		}
+	} else if fmem := db.getFrozenMem(); fmem != nil {
+		fmem.decref()
+		// The effective memdb is empty, but a frozen memdb is still waiting
+		// to be flushed (e.g. right after a write that filled the buffer).
+		// Wait for it, otherwise the transaction would commit a sequence
+		// number that is ahead of the records which only live in the frozen
+		// journal, and those records would be rejected during recovery.
+		if err := db.compTriggerWait(db.mcompCmdC); err != nil {
+			<-db.writeLockC
+			return nil, err
+		}
 	}
 
 	// Wait compaction when certain threshold reached.
